@@ -223,17 +223,23 @@ impl FixedMethod {
         if value == "\u{09CD}\u{09AF}" {
             // Check if র is not a part of a Ro-fola, if its not then add an ZWJ before
             // the Zo-fola to have the র‍্য form.
-            if rmc == B_R && self.buffer.chars().rev().nth(1).unwrap_or_default() != B_HASANTA {
+            // With the old style Kar ordering a left standing Kar typed before its consonant sits
+            // at the end of the buffer: take it off, so that the র check sees the consonant.
+            let kar = if config.get_fixed_old_kar_order() && is_left_standing_kar(rmc) {
+                self.buffer.pop()
+            } else {
+                None
+            };
+            let mut last_two = self.buffer.chars().rev();
+            if last_two.next().unwrap_or_default() == B_R
+                && last_two.next().unwrap_or_default() != B_HASANTA
+            {
                 self.buffer.push(ZWJ);
             }
-            if config.get_fixed_old_kar_order() && is_left_standing_kar(rmc) {
-                if let Some(kar) = self.buffer.pop() {
-                    self.buffer.push_str(value);
-                    self.buffer.push(kar);
-                    return;
-                }
-            }
             self.buffer.push_str(value);
+            if let Some(kar) = kar {
+                self.buffer.push(kar);
+            }
             return;
         }
 
